@@ -62,8 +62,9 @@ type Peer struct {
 	refuse      int32
 	onFrame     func(pc *peerConn, f frameIn)
 	onConn      func(pc *peerConn)
-	slowUpgrade func(n int) // WebSocket: called before the HTTP upgrade of dial n (may block: a slow dial)
-	holdFd      int         // while refusing: a bound, non-listening socket that keeps the port (no other process can take it)
+	onAccept    func(pc *peerConn) // TCP: right after accept, before the handshake bytes are read
+	slowUpgrade func(n int)        // WebSocket: called before the HTTP upgrade of dial n (may block: a slow dial)
+	holdFd      int                // while refusing: a bound, non-listening socket that keeps the port (no other process can take it)
 }
 
 func newPeer(t *T, transport string, version int) *Peer {
@@ -116,6 +117,9 @@ func (p *Peer) listen(ln net.Listener) {
 			n := int(atomic.AddInt32(&p.dials, 1))
 			pc := &peerConn{p: p, N: n, c: c}
 			p.accept(pc)
+			if p.onAccept != nil {
+				p.onAccept(pc)
+			}
 			go p.serveTCP(pc)
 		}
 	}()
